@@ -22,11 +22,11 @@ def pred (op impl : List String) : Option String :=
   match op, impl with
   | ["sna32", a, b], [r] =>
     let want := snaSpec 32 (parseNat! a) (parseNat! b)
-    if r == want then none else some s!"serial comparison of 32-bit values {a} {b}: implementation LT/LTE/GT/GTE/EQ={r}, serial-number arithmetic gives {want}"
+    if r == want then none else some s!"[C16] serial comparison of 32-bit values {a} {b}: implementation LT/LTE/GT/GTE/EQ={r}, serial-number arithmetic gives {want}"
   | ["sna16", a, b], [r] =>
     let want := snaSpec 16 (parseNat! a) (parseNat! b)
-    if r == want then none else some s!"serial comparison of 16-bit values {a} {b}: implementation LT/LTE/GT/GTE/EQ={r}, serial-number arithmetic gives {want}"
-  | ["sna16all"], [r] => if r == "0" then none else some s!"{r} of the 2^32 16-bit pairs disagree with serial-number arithmetic"
+    if r == want then none else some s!"[C16] serial comparison of 16-bit values {a} {b}: implementation LT/LTE/GT/GTE/EQ={r}, serial-number arithmetic gives {want}"
+  | ["sna16all"], [r] => if r == "0" then none else some s!"[C16] {r} of the 2^32 16-bit pairs disagree with serial-number arithmetic"
   | _, _ => none
 
 def step (op : List String) : String :=
